@@ -41,6 +41,7 @@ type fchan struct {
 	mu       sync.Mutex
 	isClosed bool
 	nclose   int
+	failSend bool // the transport fails every Send
 
 	// channel-discipline monitors (C10)
 	sending, recving, closing atomic.Int32
@@ -93,7 +94,7 @@ func (c *fchan) Send(b []byte) error {
 		c.fault("Send called without holding the owner's mutex")
 	}
 	c.mu.Lock()
-	ok := !c.isClosed
+	ok := !c.isClosed && !c.failSend
 	c.sends = append(c.sends, append([]byte(nil), b...))
 	c.mu.Unlock()
 	c.log.obs("%s", canonSend(b, ok))
